@@ -206,13 +206,12 @@ theorem c01_translated_conditions :
 
 /-- the structural facts that are not expressions (statement order of Memoize, what is stored as the entry's
     context, which keys the reuse test ranges over, what the reset does) are compared as normalised source text -/
-theorem c01_facts :
-    Facts.curtailSlack = 1 ∧
-    Facts.memoizeSavedCtx = "leftRecCtx.Filter(cp)" ∧
-    Facts.memoizeCallOrder = "ResultCache().Get;data.NewIntSet;p.Parse;leftRecCtx.Inc;leftRecCtx.Filter;ResultCache().Save" ∧
-    Facts.cacheGetRange = "result.LeftRecCtx.Keys()" ∧
-    Facts.seqResetBody = "{leftRecCtx=data.EmptyIntMapmergeCurtailingParsers=false}" :=
-  ⟨rfl, rfl, rfl, rfl, rfl⟩
+/- (the text facts that stood here - condition lists and statement orders of Memoize, ResultCache, Any, Choice, the Sequence
+   machinery, ReturnError, SetError, Parse, re-read from the source as normalised text - are subsumed since translator v3: the
+   functions themselves are translated from the source on every run and the model is PROVED to agree with the translation
+   (Props/C01P.lean, built and audited by this property's check).  Unlike a text comparison, that tie is not broken by an
+   equivalent rewrite of the source.) -/
+theorem c01_facts : Facts.curtailSlack = 1 := rfl
 
 /-
   **C01 completeness — the statement as first written; now proved for the monotone fragment in Props/C01C.lean
